@@ -450,6 +450,7 @@ var tableChoices = []struct {
 }
 
 var runeChoices = [][]rune{
+	[]rune("hello world"), {'z', 'z', 'y', 'z', 'x'}, // a rune may be listed more than once: same list, same order, same draws
 	{'a'}, {'a', 'b'}, {'a', 'b', 'c'}, {'x', 'é', '世', '😀'}, {'\x00', '\n', ' '}, {'😀'}, {'é', 'ü'}, {utf8.MaxRune, 'a'}, {'\uFFFD'},
 }
 
